@@ -695,11 +695,14 @@ pub fn member_alphabet() -> Vec<MSpec> {
         // file completely (or be skipped), never be spliced into it
         m(14, "d//b.dlt", 2),
         m(15, "./a.dlt", 1),
+        // a name that is itself a well-formed glob (a character class) next to the name that glob matches
+        m(16, "d/log[1].dlt", 4),
+        m(17, "d/log1.dlt", 6),
     ]
 }
 
 pub fn pattern_alphabet() -> Vec<Option<&'static str>> {
-    vec![None, Some("**/*"), Some("*.dlt"), Some("d/*"), Some("d/b.dlt"), Some("nomatch*"), Some("../x.dlt"), Some("[a-d]*.dlt")]
+    vec![None, Some("**/*"), Some("*.dlt"), Some("d/*"), Some("d/b.dlt"), Some("nomatch*"), Some("../x.dlt"), Some("[a-d]*.dlt"), Some("d/log[1].dlt")]
 }
 
 #[derive(Clone, Copy, PartialEq, Eq, Debug)]
